@@ -501,6 +501,23 @@ func (x *Exec) evalPseudo(name string, n *ast.CallExpr, st *State, env *Env) (Va
 		return x.evalCount(n, st, env), true
 	case "sum":
 		return x.evalSum(n, st, env), true
+	case "countsame":
+		// countsame(k, lo, hi, P, Q): lemma instance (valid by induction on hi): two predicates that agree throughout
+		// [lo,hi) are counted equally often there. Added to the assumptions; the call evaluates to true. Not under a quantifier.
+		mk := func(body ast.Expr) Val {
+			return x.evalCount(&ast.CallExpr{Fun: ast.NewIdent("count"), Args: []ast.Expr{n.Args[0], n.Args[1], n.Args[2], body}}, st, env)
+		}
+		cp := mk(n.Args[3])
+		cq := mk(n.Args[4])
+		vn := x.bindVar(n.Args[0])
+		lo := x.defaultType(x.eval(n.Args[1], st, env)).T
+		hi := x.defaultType(x.eval(n.Args[2], st, env)).T
+		bv := x.c.freshName(vn)
+		pb := x.defaultType(x.eval(n.Args[3], st, env.with(vn, Val{T: bv, Ty: tInt}))).T
+		qb := x.defaultType(x.eval(n.Args[4], st, env.with(vn, Val{T: bv, Ty: tInt}))).T
+		rng := and(app("<=", lo, bv), app("<", bv, hi))
+		x.c.assumes = append(x.c.assumes, implies(fmt.Sprintf("(forall ((%s Int)) %s)", bv, implies(rng, eq(pb, qb))), eq(cp.T, cq.T)))
+		return Val{T: "true", Ty: tBool}, true
 	case "countzero", "countall":
 		// lemma instance (valid by induction on hi): a predicate false throughout [lo,hi) is counted 0 times;
 		// true throughout: hi-lo times. The instance is added to the assumptions; the call itself evaluates to true.
